@@ -32,7 +32,7 @@ REQUIRED_REACH = ["grid.py:enclosing_points_1d", "math.py:wrapped_difference",
                   "dataframe.py:interpolate_dataframe_time", "geometry.py:Track.interpolate",
                   "dataset.py:interpolate_at_points", "dataarray.py:interpolate_track_data_arrray",
                   "dataset.py:interpolate_dataset"]
-REQUIRED_COUNTERS = {"C14.targets_in_wrap_bin": 5, "C14.pairs_straddling_seam": 5, "C14.long_jumps(>180)": 5,
+REQUIRED_COUNTERS = {"C14.descending_periodic_grids": 3, "C14.targets_in_wrap_bin": 5, "C14.pairs_straddling_seam": 5, "C14.long_jumps(>180)": 5,
                      "C14.track_points_across_antimeridian": 3}
 TIMEOUT = {"quick": 600, "thorough": 3000}
 N = {"quick": (8, 800), "thorough": (16, 12000)}
@@ -55,6 +55,9 @@ def case_coord(rng):
         w = rng.uniform(0.5, 1.5, n)
         w = w / w.sum() * 360.0
         xp = start + np.cumsum(w) - w[0]
+    desc = bool(rng.uniform() < 0.3)
+    if desc:
+        xp = xp[::-1].copy()  # a descending periodic grid (345, 315, ..., 15)
     rank = int(rng.integers(1, 4))
     axis = int(rng.integers(0, rank))
     other = ["p", "q"][: rank - 1]
@@ -64,12 +67,16 @@ def case_coord(rng):
     vals = rng.normal(0, 3, shape)
     m = int(rng.integers(1, 10))
     tg = rng.uniform(-1000, 1000, m)
+    if desc:
+        xp_asc = xp[::-1]
+    else:
+        xp_asc = xp
     # force some targets into the wrap bin and exactly onto nodes
     if rng.uniform() < 0.7:
-        tg[0] = xp[-1] + rng.uniform(0, 1) * (xp[0] + 360 - xp[-1]) + 360 * int(rng.integers(-2, 3))
+        tg[0] = xp_asc[-1] + rng.uniform(0, 1) * (xp_asc[0] + 360 - xp_asc[-1]) + 360 * int(rng.integers(-2, 3))
     if rng.uniform() < 0.3 and m > 1:
         tg[1] = xp[int(rng.integers(0, n))] + 360 * int(rng.integers(-2, 3))
-    return {"part": "coord", "name": name, "xp": xp, "gk": gk, "dims": dims, "axis": axis, "values": vals,
+    return {"part": "coord", "name": name, "xp": xp, "gk": gk + ("-descending" if desc else ""), "dims": dims, "axis": axis, "values": vals,
             "targets": tg, "shift": int(rng.choice([-3, -1, 1, 2]))}
 
 
@@ -83,6 +90,12 @@ def judge_coord(ctx, c):
         if d != name:
             coords[d] = np.arange(s, dtype=float)
     ds = xarray.Dataset({"v": (c["dims"], vals)}, coords=coords)
+    xp_in = xp
+    if xp[-1] < xp[0]:
+        ctx.count("C14.descending_periodic_grids")
+    v_in = vals
+    if xp[-1] < xp[0]:  # reference works on the ascending copy
+        xp = xp[::-1]
     red = (tg - xp[0]) % 360.0 + xp[0]
     inwrap = red > xp[-1]
     ctx.count("C14.targets_in_wrap_bin", int(inwrap.sum()))
@@ -94,6 +107,8 @@ def judge_coord(ctx, c):
         return
     g = np.moveaxis(np.asarray(out["v"].values, float), axis, 0)
     v0 = np.moveaxis(vals, axis, 0)
+    if xp_in[-1] < xp_in[0]:
+        v0 = v0[::-1]
     xe = np.concatenate([xp - 360.0, xp, xp + 360.0])
     ve = np.concatenate([v0, v0, v0], axis=0)
     ref, _, _ = ref_interp_axis0(xe, ve, red)
@@ -105,6 +120,14 @@ def judge_coord(ctx, c):
     # tolerance: reduction modulo 360 of targets up to 1000 loses ~1e-13 relative of the bin position
     ctx.close("C14.periodic-coordinate==extended-grid-reference", g, ref, atol=1e-9 * scale, rtol=1e-9, case=c,
               key="C14:coord")
+    if vals.ndim == 1:
+        # the same through interpolate_periodic with a periodic x
+        from ocean_science_utilities.interpolate.general import interpolate_periodic
+        okp, gp = guarded(ctx, "C14.no-exception", lambda: interpolate_periodic(xp_in, vals, tg, x_period=360), c,
+                          key="C14:exception:interpolate_periodic:x_period")
+        if okp:
+            ctx.close("C14.interpolate_periodic(x_period)==extended-grid-reference", np.asarray(gp, float), ref, atol=1e-9 * scale,
+                      rtol=1e-9, case=c, key="C14:interpolate_periodic:x_period")
     tg2 = tg + 360.0 * int(c["shift"])
     ok, out2 = guarded(ctx, "C14.no-exception", lambda: interpolate_dataset_along_axis(tg2, ds, coordinate_name=name), c,
                        key="C14:exception:coord")
